@@ -18,26 +18,41 @@ def _fails(spec, ops, cfg, sig, timeout):
     return None
 
 
-def ddmin(spec, ops, cfg, sig, timeout=120.0, max_tests=400):
+def _first_failing(spec, cands, cfg, sig, timeout):
+    """Evaluate all candidates on the pool; index of the first (in list
+    order, hence deterministic) that still shows the signature, or None."""
+    specs = []
+    for c in cands:
+        s = dict(spec)
+        s["ops"] = c
+        s["cfg"] = cfg
+        specs.append(s)
+    results = runner.map_specs(specs, timeout)
+    for i, res in enumerate(results):
+        if "harness_error" in res:
+            continue
+        if any(v["sig"] == sig for v in res["violations"]):
+            return i
+    return None
+
+
+def ddmin(spec, ops, cfg, sig, timeout=120.0, max_tests=600):
     tests = 0
     n = 2
     ops = list(ops)
     while len(ops) >= 2 and tests < max_tests:
         chunk = max(1, len(ops) // n)
-        reduced = False
+        cands = []
         for i in range(0, len(ops), chunk):
             cand = ops[:i] + ops[i + chunk:]
-            if not cand:
-                continue
-            tests += 1
-            if _fails(spec, cand, cfg, sig, timeout):
-                ops = cand
-                n = max(n - 1, 2)
-                reduced = True
-                break
-            if tests >= max_tests:
-                break
-        if not reduced:
+            if cand:
+                cands.append(cand)
+        tests += len(cands)
+        j = _first_failing(spec, cands, cfg, sig, timeout)
+        if j is not None:
+            ops = cands[j]
+            n = max(n - 1, 2)
+        else:
             if chunk == 1:
                 break
             n = min(len(ops), n * 2)
